@@ -19,14 +19,18 @@ REGISTRATION = {
             "location-free specification, placement only uses free cells, invariants are preserved by every "
             "operation for all histories (inv_run, mask_exact_all_histories); WrapperCache: a rejected batch is "
             "unwound to the pre-batch abstraction in every wrapped cache, an accepted one satisfies mask_exact in "
-            "each. Model = code is checked on thousands of generated histories per run "
+            "each; store / window eviction commute with the abstraction (forward_abs_perm, slide_abs, evict_invisible, "
+            "forward_exposes_stored_history); EncoderCache modelled with encoder_cached_exact. Model = code is checked on thousands of generated histories per run "
             "(exposed entries + data per batch token, abstraction and exact cell/row/range layout after every "
             "operation), and the property itself is evaluated on the real cache against a pure-Go shadow "
             "specification (mask through Cache.Get, K and V rows, both layers).",
     "design_ref": "DESIGN.md §5 C06",
     "note": COMMON_NOTE + "Modelled, not verified: int32 position arithmetic as unbounded Int (positions far from "
             "2^31), immediate graph execution (ctx.Compute boundaries), all layers Put on every pass, "
-            "SetCausal/Except and reserve passes; EncoderCache has an L2 monitor only (no model). "
+            "SetCausal/Except and reserve passes. Still open: defrag preserves abs (repaired variant) and "
+            "compacts (full-is-error as an iff) — covered by L1/L2 only; the end-to-end theorem "
+            "forward_exposes_stored_history is for placements without defrag. The model variant (which repairs "
+            "the tree carries) is probed from the real code on every run. "
             "Known defects of the pinned tree are mirrored by the model and excluded by explicit guards in the "
             "_partial theorems: F14 (defrag coalescing), F15/F15b (sliding window after Remove/CopyPrefix), "
             "F23 (defrag before any Put).",
